@@ -599,7 +599,7 @@ def configs(tier):
     out += [f'weights {c}' for c in ws]
     bp = ['RotatedPlanar2DCode(2,2)', 'Toric2DCode(2,2)', 'RotatedPlanar2DCode(2,2)/XZZX/x', 'Toric2DCode(2,2)/XY']
     if tier != 'quick':
-        bp += ['Planar2DCode(2,3)', 'Toric3DCode(2,2,2)/XZZX/z', 'XCubeCode(2,2,2)', 'RhombicPlanarCode(2,2,2)/Checkerboard XZZX']
+        bp += ['Planar2DCode(2,3)', 'Toric3DCode(2,2,2)/XZZX/z', 'XCubeCode(2,2,2)', 'RhombicPlanarCode(2,2,2)/Checkerboard_XZZX']
     for c in bp:
         out.append(f'bposd {c} noupdate')
     # the conditional update forks three ways per qubit: keep n <= 5
